@@ -9,6 +9,7 @@ def main(argv):
     tier = argv[1] if len(argv) > 1 else os.environ.get('VERIF_TIER', 'quick')
     if tier not in ('quick', 'thorough'):
         print('usage: check <PID> [quick|thorough]'); return 2
+    os.environ['VERIF_TIER_RUNNING'] = tier          # per-configuration wall-clock budget (symx/driver.py) depends on the tier
     mod = importlib.import_module(f'harness.{pid}')
     return mod.main(tier)
 
